@@ -120,6 +120,9 @@ def run(ctx):
             add({"chunks": allc, "damage": [total - 1]}, "all-complete-last-damaged", size=size)
             add({"chunks": allc}, "all-complete", size=size)
             add({"chunks": some, "nodata": True}, "data-file-deleted", size=size)
+            # a complete temp sidecar left by a kill inside a later flush, next to the sidecar
+            add({"chunks": some, "tmp_chunks": allc, "nodata": True}, "data-file-deleted-tmp-left", size=size)
+            add({"chunks": some, "tmp_chunks": allc}, "legit-partial-tmp-left", size=size)
             add({"chunks": allc, "short": max(1, size // 2)}, "data-file-shortened", size=size)
             add({"chunks": allc, "garbage": True, "foreign_chunk": 16}, "foreign-chunk-size", size=size)
             # another chunk size that happens to give the same number of chunks for this file
@@ -165,7 +168,7 @@ def run(ctx):
         "rule": "sidecars from the real CreateSidecar/Flush over (chunk in {1,7,32,64,4096}) x (total 0..70, byte-boundary totals) x random bitmaps and ids; EVERY single-bit flip and EVERY truncation of the small ones, "
                 "sampled flips/truncations of the others, trailing bytes, random garbage, magic+version prefixes -> LoadSidecar vs model; identity rule with each field changed; "
                 "resumed end-to-end transfers (netsim and mock, 1-3 streams, both root modes) from: legit partial, highest chunk damaged, all complete + last damaged, data file deleted / shortened, "
-                "foreign chunk size (also one giving the same chunk count) / file size / id, bit-flipped and truncated sidecar (data file full of garbage so that any trusted bit shows); "
+                "foreign chunk size (also one giving the same chunk count) / file size / id, bit-flipped and truncated sidecar (data file full of garbage so that any trusted bit shows), a complete temp sidecar left behind by a kill inside a flush (with the data file deleted / intact); "
                 "resume reports (every bitmap shape on 1-8 chunks x hash good/bad/unknown in the CLI configuration; random bitmaps on 1-33 chunks x tail 0..total+2 x verify modes x hash algorithms x "
                 "reported last-verified chunk (true or arbitrary) x hash good/bad/unknown/zero) answered by a scripted receiver to the real sender: multiset of chunk frames that travel and planned-skip count vs Model/Resume",
         "samples": [ser_cases[0], parse_cases[3][:100], load_cases[1][:120], cases[0]["name"]],
